@@ -71,7 +71,7 @@ Definition is_alnum (c : ascii) : bool :=
   ((48 <=? code c) && (code c <=? 57)) || ((65 <=? code c) && (code c <=? 90)) ||
   ((97 <=? code c) && (code c <=? 122)).
 
-(** * percent encoding, layout.rs:15 and 492
+(** * percent encoding, layout.rs:15 and 504
     NON_ALPHA_PLUS = NON_ALPHANUMERIC minus the exempt bytes; utf8_percent_encode
     writes every byte of the set and every non-ASCII byte as %XX with UPPER case hex. *)
 Definition hex_upper (n : N) : ascii := if n <? 10 then ascii_of_N (48 + n) else ascii_of_N (55 + n).
@@ -84,7 +84,7 @@ Definition pct_byte_upper (c : ascii) : bytes :=
   if pct_keep c then [c] else ["%"%char; hex_upper (code c / 16); hex_upper (code c mod 16)].
 Definition percent_encode_upper (s : bytes) : bytes := flat_map pct_byte_upper s.
 
-(** lower_percent_escape, layout.rs:661-689: everything up to and including the first
+(** lower_percent_escape, layout.rs:674-702: everything up to and including the first
     '%' is copied; then a counter (2 after a '%') says how many following bytes are
     lower-cased; a '%' met while the counter is positive is NOT the start of an escape *)
 Fixpoint lpe_loop (count : N) (s : bytes) : bytes :=
@@ -101,11 +101,12 @@ Fixpoint lower_percent_escape (s : bytes) : bytes :=
   | c :: t => if Ascii.eqb c "%"%char then c :: lpe_loop 2 t else c :: lower_percent_escape t
   end.
 
-(** * to_tuples, layout.rs:643-654
+(** * to_tuples, layout.rs:656-667
     [for i in 0..n { push value[i*size .. i*size+size]; push '/' }].  A slice past the
     end panics in the first iteration that needs it, so the whole call panics iff
     n*size > len (size > 0); the guard keeps the model cheap on hostile numbers.
-    (size = 0 is never passed: 0003/0004 return before the call, 0007 validates >= 1.) *)
+    (size = 0 is passed only by 0003 with tupleSize = numberOfTuples = 0, layout.rs:497-501:
+    no iteration, the empty string; 0004 returns before the call, 0007 validates >= 1.) *)
 Fixpoint to_tuples_loop (value : bytes) (size : N) (n : nat) (i : N) : res bytes :=
   match n with
   | O => Ok []
@@ -139,7 +140,7 @@ Definition ext_of_name (s : bytes) : option ext :=
   find (fun e => bytes_eqb (ext_name e) s) all_exts.
 
 (** DigestAlgorithm, src/ocfl/digest.rs:28-56, and the length of its hex digest
-    (what [validate_digest_algorithm] measures by hashing "test", layout.rs:721) *)
+    (what [validate_digest_algorithm] measures by hashing "test", layout.rs:744) *)
 Inductive alg := Md5 | Sha1 | Sha256 | Sha512 | Sha512_256 | Blake2b512 | Blake2b160 | Blake2b256 | Blake2b384.
 Definition all_algs : list alg := [Md5; Sha1; Sha256; Sha512; Sha512_256; Blake2b512; Blake2b160; Blake2b256; Blake2b384].
 Definition alg_name (a : alg) : bytes :=
@@ -198,7 +199,7 @@ Definition no_delim : ustr := mkS [] [] [].
     null; an unsigned literal above u64::MAX is parsed as a float, hence an error. *)
 Definition get_usize (v : jv) : res N :=
   match v with
-  | JAbsent => Ok 3                                            (* default_tuple, layout.rs:741 *)
+  | JAbsent => Ok 3                                            (* default_tuple, layout.rs:764 *)
   | JNum n => if n <=? USIZE_MAX then Ok n else Err
   | _ => Err
   end.
@@ -283,20 +284,38 @@ Definition default_cfg (e : ext) : cfg := mkCfg e e Sha256 3 3 false no_delim tr
 Definition usize_mul (dbg : bool) (x y : N) : res N :=
   if x * y <=? USIZE_MAX then Ok (x * y) else if dbg then Panic else Ok ((x * y) mod USIZE_MOD).
 
-(** the validate() methods, layout.rs:213-326 and 691-737, in the order of their checks *)
+(** validate_tuple_config, layout.rs:718-737: the bound MAX_TUPLE_CONFIG on both numbers
+    is tested FIRST (fix d1aca14), then "both zero or none" *)
+Definition validate_tuple_config (ts nt : N) : bool :=
+  if (K_MAX_TUPLE_CONFIG <? ts) || (K_MAX_TUPLE_CONFIG <? nt) then false
+  else if ((ts =? 0) || (nt =? 0)) && (negb (ts =? 0) || negb (nt =? 0)) then false
+  else true.
+
+(** validate_digest_algorithm, layout.rs:739-760: the product is a usize multiplication
+    (it can no longer overflow: both factors passed validate_tuple_config) *)
+Definition validate_digest_algorithm (dbg : bool) (a : alg) (ts nt : N) : res unit :=
+  res_bind (usize_mul dbg ts nt) (fun total =>
+  if alg_hexlen a <? total then Err else Ok tt).
+
+(** the validate() methods, layout.rs:213-342, in the order of their checks *)
 Definition validate (dbg : bool) (c : cfg) : res cfg :=
-  if negb (ext_eqb (c_name c) (c_ext c)) then Err                 (* validate_extension_name *)
+  if negb (ext_eqb (c_name c) (c_ext c)) then Err                 (* validate_extension_name, layout.rs:704-716 *)
   else match c_ext c with
   | E0002 => Ok c
-  | E0003 | E0004 =>
-      (* validate_tuple_config, layout.rs:705-714 *)
-      if ((c_ts c =? 0) || (c_nt c =? 0)) && (negb (c_ts c =? 0) || negb (c_nt c =? 0)) then Err
-      else (* validate_digest_algorithm, layout.rs:716-737 *)
-        res_bind (usize_mul dbg (c_ts c) (c_nt c)) (fun total =>
-        if alg_hexlen (c_alg c) <? total then Err else Ok c)
-  | E0006 =>
+  | E0003 =>      (* HashedNTupleObjectIdLayoutConfig::validate, layout.rs:271-282 *)
+      if negb (validate_tuple_config (c_ts c) (c_nt c)) then Err
+      else res_bind (validate_digest_algorithm dbg (c_alg c) (c_ts c) (c_nt c)) (fun _ => Ok c)
+  | E0004 =>      (* HashedNTupleLayoutConfig::validate, layout.rs:228-255 *)
+      if negb (validate_tuple_config (c_ts c) (c_nt c)) then Err
+      else res_bind (validate_digest_algorithm dbg (c_alg c) (c_ts c) (c_nt c)) (fun _ =>
+        (* layout.rs:240-252 (fix a91c61b): shortObjectRoot with the whole digest in the tuples *)
+        if c_short c then
+          res_bind (usize_mul dbg (c_ts c) (c_nt c)) (fun total =>
+          if alg_hexlen (c_alg c) =? total then Err else Ok c)
+        else Ok c)
+  | E0006 =>      (* layout.rs:297-310 *)
       match us_bytes (c_delim c) with [] => Err | _ => Ok c end   (* delimiter.is_empty() *)
-  | E0007 =>
+  | E0007 =>      (* layout.rs:314-341 *)
       match us_bytes (c_delim c) with
       | [] => Err
       | _ => if (c_ts c <? 1) || (32 <? c_ts c) then Err
@@ -305,7 +324,7 @@ Definition validate (dbg : bool) (c : cfg) : res cfg :=
       end
   end.
 
-(** StorageLayout::new, layout.rs:44-72 with the five [new] functions 392-590 *)
+(** StorageLayout::new, layout.rs:44-72 with the five [new] functions 408-602 *)
 Definition new (dbg : bool) (e : ext) (r : raw) : res cfg :=
   match r with
   | RawNone =>
@@ -328,10 +347,10 @@ Definition cfg_ok (c : cfg) : bool :=
 
 (** * the five map_object_id functions *)
 
-(** 0002, layout.rs:407-409 *)
+(** 0002, layout.rs:423-425 *)
 Definition map_0002 (id : ustr) : res bytes := Ok (us_bytes id).
 
-(** 0004, layout.rs:427-453 *)
+(** 0004, layout.rs:443-469 *)
 Definition map_0004 (c : cfg) (digest : bytes) : res bytes :=
   if c_ts c =? 0 then Ok digest
   else
@@ -340,22 +359,22 @@ Definition map_0004 (c : cfg) (digest : bytes) : res bytes :=
       res_bind (str_from digest (c_ts c * c_nt c)) (fun rest => Ok (path ++ rest))
     else Ok (path ++ digest)).
 
-(** 0003, layout.rs:473-504 *)
+(** 0003, layout.rs:489-516.  There is no early return for tupleSize = 0 any more (fix
+    e1de1bb): to_tuples then yields the empty string and the root is the encapsulation
+    directory alone. *)
 Definition map_0003 (c : cfg) (id : ustr) (digest : bytes) : res bytes :=
-  if c_ts c =? 0 then Ok digest
-  else
-    res_bind (to_tuples digest (c_ts c) (c_nt c)) (fun path =>
-    let lower := lower_percent_escape (percent_encode_upper (us_bytes id)) in
-    if blen lower <=? K_MAX_0003_ENCAPSULATION_LENGTH then Ok (path ++ lower)
-    else res_bind (str_to lower K_MAX_0003_ENCAPSULATION_LENGTH) (fun head =>
-         Ok (path ++ head ++ "-"%char :: digest))).
+  res_bind (to_tuples digest (c_ts c) (c_nt c)) (fun path =>
+  let lower := lower_percent_escape (percent_encode_upper (us_bytes id)) in
+  if blen lower <=? K_MAX_0003_ENCAPSULATION_LENGTH then Ok (path ++ lower)
+  else res_bind (str_to lower K_MAX_0003_ENCAPSULATION_LENGTH) (fun head =>
+       Ok (path ++ head ++ "-"%char :: digest))).
 
-(** the derived fields of the 0006/0007 extension structs, layout.rs:522-528, 576-582 *)
+(** the derived fields of the 0006/0007 extension structs, layout.rs:534-540, 588-594 *)
 Definition case_matters (d : ustr) : bool := negb (bytes_eqb (us_lower d) (us_upper d)).
 Definition norm_delim (d : ustr) : bytes := if case_matters d then us_lower d else us_bytes d.
 Definition test_id (d id : ustr) : bytes := if case_matters d then us_lower id else us_bytes id.
 
-(** the prefix removal shared by 0006 (layout.rs:538-558) and 0007 (601-619):
+(** the prefix removal shared by 0006 (layout.rs:550-570) and 0007 (614-632):
     rfind on the (possibly lower-cased) id, the index applied to the ORIGINAL id *)
 Definition strip_prefix (d id : ustr) : res bytes :=
   match rfind (test_id d id) (norm_delim d) with
@@ -374,19 +393,23 @@ Definition pad_str (left : bool) (w : N) (s : bytes) : bytes :=
   if w <=? char_count s then s
   else if left then zeros (w - char_count s) ++ s else s ++ zeros (w - char_count s).
 
-(** 0007, layout.rs:594-639.  After the is_ascii test every char is one byte, so
-    chars().rev() is the reversal of the bytes. *)
+(** 0007, layout.rs:606-652.  The guard (layout.rs:608, fix 970818d) wants every BYTE of
+    the id in 0x20..=0x7F; after it every char is one byte, so chars().rev() is the
+    reversal of the bytes. *)
+Definition in_0007_range (c : ascii) : bool := (32 <=? code c) && (code c <=? 127).
+(** layout.rs:614-651, what follows the guard *)
+Definition map_0007_mapped (c : cfg) (id : ustr) : res bytes :=
+  res_bind (strip_prefix (c_delim c) id) (fun id_part =>
+  let width := c_ts c * c_nt c in
+  let padded := pad_str (c_padleft c) width id_part in
+  let padded := if c_rev c then rev padded else padded in
+  res_bind (to_tuples padded (c_ts c) (c_nt c)) (fun path =>
+  Ok (path ++ id_part))).
 Definition map_0007 (c : cfg) (id : ustr) : res bytes :=
-  if negb (is_ascii (us_bytes id)) then Panic
-  else
-    res_bind (strip_prefix (c_delim c) id) (fun id_part =>
-    let width := c_ts c * c_nt c in
-    let padded := pad_str (c_padleft c) width id_part in
-    let padded := if c_rev c then rev padded else padded in
-    res_bind (to_tuples padded (c_ts c) (c_nt c)) (fun path =>
-    Ok (path ++ id_part))).
+  if negb (forallb in_0007_range (us_bytes id)) then Panic
+  else map_0007_mapped c id.
 
-(** LayoutExtension::map_object_id, layout.rs:329-337 *)
+(** LayoutExtension::map_object_id, layout.rs:345-353 *)
 Definition map (c : cfg) (id : ustr) (digest : bytes) : res bytes :=
   match c_ext c with
   | E0002 => map_0002 id
